@@ -57,7 +57,35 @@ fn verify(img: Store, cfg: &RunCfg, fp: &FlushPoint) -> Result<(), (String, Stri
     }
 }
 
+/// wraps the generator: some flush / close steps get a transient storage error injected, followed by a retry
+pub struct FaultyFlush {
+    pub g: Gen,
+    pub rng: Rng,
+    pub pending: Option<Step>,
+    pub pct: u64,
+}
+
+impl crate::engine::StepSource for FaultyFlush {
+    fn next(&mut self, w: &crate::engine::World, h: &crate::engine::HandleView) -> Option<Step> {
+        if let Some(s) = self.pending.take() {
+            return Some(s);
+        }
+        let mut s = self.g.next(w, h)?;
+        if self.pct > 0 && matches!(s.op, Op::Flush { .. }) && self.rng.below(100) < self.pct {
+            // transient error somewhere inside this flush, then the caller simply tries again
+            let retry = Step { c: s.c, op: s.op.clone(), hard_at: None, sticky: false };
+            s.hard_at = Some(self.rng.range(1, 12));
+            self.pending = Some(retry);
+        }
+        Some(s)
+    }
+}
+
 pub fn run(seed: u64, dense: bool) -> RunOutcome {
+    run_mode(seed, dense, 0)
+}
+
+pub fn run_mode(seed: u64, dense: bool, fault_pct: u64) -> RunOutcome {
     let mut r = Rng::new(seed);
     let mut fl = props::base_flavor("C14");
     fl.oracles = Oracles { crash_log: true, ..Default::default() };
@@ -75,12 +103,16 @@ pub fn run(seed: u64, dense: bool) -> RunOutcome {
     prof.invalid_names = 10;
     prof.max_write = 20_000;
     prof.clients = r.range(1, 3) as u8;
-    let mut g = Gen::new(r.next_u64(), prof);
+    let mut g = FaultyFlush { g: Gen::new(r.next_u64(), prof), rng: Rng::new(seed ^ 0xFA17), pending: None, pct: fault_pct };
     let base = exec::run(cfg.clone(), "C14", &mut g, 200);
+    if fault_pct > 0 {
+        *RunOutcome::empty().counters.entry("x".into()).or_insert(0) += 0;
+    }
     let mut o = RunOutcome::empty();
     o.evaluations = 0;
     o.stats = base.stats.clone();
-    let mkrep = |v: &Violation| Replay { property: "C14".into(), kind: if dense { "c14-dense".into() } else { "c14".into() }, seed, cfg: cfg.clone(), steps: base.trace.clone(), violation: Some(v.clone()) };
+    o.counters.insert("hard_errors_injected_in_flush".into(), base.stats.hard_faults);
+    let mkrep = |v: &Violation| Replay { property: "C14".into(), kind: if fault_pct > 0 { "c14-faulty-flush".into() } else if dense { "c14-dense".into() } else { "c14".into() }, seed, cfg: cfg.clone(), steps: base.trace.clone(), violation: Some(v.clone()) };
     if let Some(v) = base.violation {
         o.violation = Some((v.clone(), mkrep(&v)));
         return o;
@@ -151,13 +183,16 @@ pub fn replay(kind: &str, seed: u64) -> Option<RunOutcome> {
     match kind {
         "c14" => Some(run(seed, false)),
         "c14-dense" => Some(run(seed, true)),
+        "c14-faulty-flush" => Some(run_mode(seed, false, 40)),
         _ => None,
     }
 }
 
 pub fn batches(tier: &str, seed: u64) -> Vec<Batch<'static>> {
     let (n1, n2) = if tier == "quick" { (3000u64, 600u64) } else { (150_000, 60_000) };
+    let n3 = n1;
     vec![
+        Batch { name: "transient storage error inside flush, caller retries: a flush that finally returns Ok is a flush point".into(), runs: n3, f: Box::new(move |i| run_mode(crate::rng::run_seed(seed, 43, i), false, 40)) },
         Batch { name: "histories with flush points, crash points sampled when > 48".into(), runs: n1, f: Box::new(move |i| run(crate::rng::run_seed(seed, 41, i), false)) },
         Batch { name: "histories with flush points, EVERY later crash point".into(), runs: n2, f: Box::new(move |i| run(crate::rng::run_seed(seed, 42, i), true)) },
     ]
